@@ -69,4 +69,8 @@ MUTANTS = [
     {"pid": "C36", "name": "clientstack-drops-unsent-rest", "edits": [(ST, "        if count < len(self.txbs):  # partially blocked try again later\n            del self.txbs[:count]  # delete sent portion\n            return False", "        if count < len(self.txbs):  # partially blocked try again later\n            self.clearTxbs()\n            return False")]},
     {"pid": "C36", "name": "serverstack-rx-deletes-too-little", "edits": [(ST, "        del ix.rxbs[:packet.size]\n        self.rxPkts.append((packet, ca))  # queue packet", "        del ix.rxbs[:max(0, packet.size - 1)]\n        self.rxPkts.append((packet, ca))  # queue packet")]},
     {"pid": "C36", "name": "serverstack-tx-to-first-ix", "edits": [(ST, "            self.handler.transmitIx(pkt.packed, ca)", "            self.handler.transmitIx(pkt.packed, self.handler.ixes.keys()[0])")]},
+    # C38
+    {"pid": "C38", "name": "redo-uses-repeat-bursts", "edits": [("ioflo/aio/proto/exchanging.py", "            self.redoTimer.restart()\n            console.verbose(\"{0}: Redoing", "            self.redoTimer.repeat()\n            console.verbose(\"{0}: Redoing")]},
+    {"pid": "C38", "name": "timeout-zero-expires", "edits": [("ioflo/aio/proto/exchanging.py", "        if self.timeout > 0.0 and self.timer.expired:", "        if self.timer.expired:")]},
+    {"pid": "C38", "name": "start-does-not-restart-timer", "edits": [("ioflo/aio/proto/exchanging.py", "        self.timer.restart()\n        self.redoTimer.restart()\n        console.verbose(\"{0}: Initiating", "        self.redoTimer.restart()\n        console.verbose(\"{0}: Initiating")]},
 ]
